@@ -96,6 +96,18 @@ DemandsKept(e) ==
        ELSE /\ Cardinality(I) = 1
             /\ LET got == e.out.needs[CHOOSE i \in I : TRUE].v IN
                Len(got) = Len(want) /\ \A t \in 1..Len(want) : Abs(got[t] - want[t]) <= nl
+\* free text (cases of the string family): the comment of a line is the text after its first '#', the value of a
+\* metadata line the text after the first ':', both without the white space around them - whatever else they contain
+RECURSIVE StripL(_)
+Blank == {" ", "<VT>"}        \* white space of the alphabet: the blank and the vertical tab U+000B
+StripL(q) == IF q # <<>> /\ Head(q) \in Blank THEN StripL(Tail(q)) ELSE q
+RECURSIVE StripR(_)
+StripR(q) == IF q # <<>> /\ q[Len(q)] \in Blank THEN StripR(SubSeq(q, 1, Len(q) - 1)) ELSE q
+DeclaredText(atoms) == StripR(StripL(atoms))
+TextKept(e) ==
+  /\ \A i \in 1..Len(e.out.cm_atoms) : e.out.cm_atoms[i] = DeclaredText(e.atoms)
+  /\ \A i \in 1..Len(e.out.meta_atoms) : e.out.meta_atoms[i][2] = DeclaredText(e.atoms)
+
 C05Clauses(e) ==
   LET In0 == FromObs(e.input, e.q)
       declared == NonAux(In0)
@@ -109,6 +121,7 @@ C05Clauses(e) ==
      \cup (IF e.out.renorm.ok /\ BagClose(e.out.renorm.data, FromObs(e.out.data, e.q), e.q, 1) THEN {} ELSE {"normalize_not_idempotent"})
      \cup (IF \A i \in 1..(Len(e.out.data) - 1) : e.out.data[i].id <= e.out.data[i + 1].id THEN {} ELSE {"not_sorted_by_id"})
      \cup (IF "input_needs" \in DOMAIN e /\ ~DemandsKept(e) THEN {"declared_demand_lost_or_altered"} ELSE {})
+     \cup (IF "cm_atoms" \in DOMAIN e.out /\ ~TextKept(e) THEN {"declared_comment_or_metadata_altered"} ELSE {})
 
 (***************************************************************************)
 (* C06 on (declared input, parsed result), per system with auxiliaries     *)
